@@ -43,6 +43,7 @@ var knownClasses = []struct{ key, feat string }{
 	{"limits/max-zero", watgen.FeatLimitsMaxZero},
 	{"export/multiple-inline", watgen.FeatMultiInlineExport},
 	{"export/empty-name", watgen.FeatEmptyExportName},
+	{"rejects-valid/memory.init-needs-datacount", watgen.FeatMemoryInit},
 }
 
 // assemble runs Wa's assembler in-process (internal/wat has no os.Exit /
@@ -136,6 +137,9 @@ func oracle(text string, want *watgen.Bin, model *watgen.Module) (key, what, har
 		return "", "", "node unavailable: " + err.Error()
 	}
 	if !ok {
+		if !okRef {
+			return "", "", "V8 rejects reference and Wa output alike (engine limitation): " + msg
+		}
 		return k("invalid/v8"), "V8 rejects Wat2Wasm output: " + msg, ""
 	}
 	if werr := watgen.WazeroCompile(wasm); werr != nil {
@@ -210,7 +214,7 @@ func TestGenerated(t *testing.T) {
 	s.Assume("exports are compared as a set (name → kind,index): export order in the section is not determinable as part of 'the same exports'; an empty else branch is equivalent to none; name subsections other than module/function/local are not compared")
 	dis := disabled(s)
 	s.Check(t, func(rt *rapid.T, c *core.Case) {
-		opt := watgen.Options{Disable: dis, Trap: "any"}
+		opt := watgen.Options{Disable: dis, Trap: "any", MemoryInit: !dis[watgen.FeatMemoryInit]}
 		switch rapid.IntRange(0, 3).Draw(rt, "mode") {
 		case 0:
 			opt.Exec, opt.Trampolines = true, true
